@@ -423,6 +423,7 @@ static void run_ledger(void) {
 }
 
 static void run(void) {
+    vf_watchdog(0, 0); /* threads: process CPU time is not per case here; the driver's phase timeout is the (inconclusive) backstop */
     if (!strcmp(VF.phase, "wtrap")) run_wtrap();
     else if (!strcmp(VF.phase, "ledger")) run_ledger();
     else if (!strcmp(VF.phase, "tsan")) run_threads(1, VF_T(1, 4), VF_T(150, 500));
